@@ -32,6 +32,7 @@ type Spec struct {
 	Recs     []IRec
 	MinShift int // CSI
 	Depth    int // CSI
+	Mid      int // >0: after Mid%len(Recs)+1 records the half-built index is queried and written once, then building goes on
 	Origin   int // where the first chunk begins: 0 {101,7} (after a header), 1 {0,0} (a file without header), 2 {0,5}
 }
 
@@ -200,6 +201,9 @@ func SpecGen(csiGeom bool, maxRecs int) *rapid.Generator[Spec] {
 				s.Recs = append(s.Recs, r)
 			}
 		}
+		if rapid.IntRange(0, 2).Draw(t, "mid?") == 0 {
+			s.Mid = rapid.IntRange(1, 1000).Draw(t, "mid")
+		}
 		nun := rapid.SampledFrom([]int{0, 0, 1, 3}).Draw(t, "unplaced")
 		for i := 0; i < nun; i++ {
 			s.Recs = append(s.Recs, IRec{Ref: -1, Start: -1, End: 0, Step: 50})
@@ -356,6 +360,20 @@ func SamRecord(r IRec, hd *sam.Header, i int) *sam.Record {
 	return rec
 }
 
+// midway reports whether the half-built index is to be used after record i.
+func (s Spec) midway(i int) bool {
+	return s.Mid > 0 && len(s.Recs) > 0 && i == s.Mid%len(s.Recs)
+}
+
+// useHalfBuilt queries every reference over its whole range and writes the
+// index, the way a caller may do before it adds more records.
+func useHalfBuilt(q Querier, s Spec) {
+	for ref := 0; ref < s.NRefs; ref++ {
+		q.Chunks(Query{Ref: ref, Beg: 0, End: s.Limit()})
+	}
+	q.Write()
+}
+
 func BuildBAI(s Spec, layout []bgzf.Chunk) (*BAI, error) {
 	hd, err := Header(s.NRefs)
 	if err != nil {
@@ -365,6 +383,9 @@ func BuildBAI(s Spec, layout []bgzf.Chunk) (*BAI, error) {
 	for i, r := range s.Recs {
 		if err := b.Idx.Add(SamRecord(r, hd, i), layout[i]); err != nil {
 			return nil, fmt.Errorf("Add(record %d = %+v, chunk %+v): %v", i, r, layout[i], err)
+		}
+		if s.midway(i) {
+			useHalfBuilt(b, s)
 		}
 	}
 	return b, nil
@@ -447,6 +468,9 @@ func BuildCSI(s Spec, layout []bgzf.Chunk, version byte, aux []byte) (*CSI, erro
 		if err := c.Idx.Add(csiRec{r.Ref, r.Start, r.End}, layout[i], r.Mapped, r.Ref >= 0); err != nil {
 			return nil, fmt.Errorf("Add(record %d = %+v): %v", i, r, err)
 		}
+		if s.midway(i) {
+			useHalfBuilt(c, s)
+		}
 	}
 	return c, nil
 }
@@ -504,6 +528,9 @@ func BuildTBX(s Spec, layout []bgzf.Chunk) (*TBX, error) {
 		}
 		if err := t.Idx.Add(tbxRec{name, r.Start, r.End}, layout[i], r.Ref >= 0, r.Mapped); err != nil {
 			return nil, fmt.Errorf("Add(record %d = %+v): %v", i, r, err)
+		}
+		if s.midway(i) {
+			useHalfBuilt(t, s)
 		}
 	}
 	return t, nil
